@@ -76,7 +76,7 @@ func Compare(aVal, bVal reflect.Value) int {
 		default:
 			return 0
 		}
-	case reflect.Chan:
+	case reflect.Chan, reflect.Func, reflect.Map:
 		if c, ok := nilCompare(aVal, bVal); ok {
 			return c
 		}
@@ -97,10 +97,16 @@ func Compare(aVal, bVal reflect.Value) int {
 		}
 		return 0
 	case reflect.Slice:
-		for i := 0; i < aVal.Len(); i++ {
+		for i := 0; i < aVal.Len() && i < bVal.Len(); i++ {
 			if c := Compare(aVal.Index(i), bVal.Index(i)); c != 0 {
 				return c
 			}
+		}
+		switch {
+		case aVal.Len() < bVal.Len():
+			return -1
+		case aVal.Len() > bVal.Len():
+			return 1
 		}
 		return 0
 	case reflect.Array:
@@ -110,7 +116,7 @@ func Compare(aVal, bVal reflect.Value) int {
 			}
 		}
 		return 0
-	case reflect.Interface, reflect.Func, reflect.Map:
+	case reflect.Interface:
 		if c, ok := nilCompare(aVal, bVal); ok {
 			return c
 		}
